@@ -232,10 +232,11 @@ func NTTSparseAndMontgomery(r *ring.Ring, metadata *MetaData, pol ring.Poly) {
 					}
 				}
 			} else {
+				// Maps the coefficients of Y^{j} to X^{j*gap} and zeroes the coefficients in between
 				for j := n - 1; j >= 0; j-- {
 					coeffs[j*gap] = coeffs[j]
-					for j := 1; j < gap; j++ {
-						coeffs[j*gap-j] = 0
+					for w := 1; w < gap; w++ {
+						coeffs[j*gap+w] = 0
 					}
 				}
 			}
